@@ -5,11 +5,15 @@
 //!
 //! Case kinds:
 //!   {"k":"bim","sh":NAME,"a":V,"da":V,"b":V,"db":V}
+//!   {"k":"ght","shape":S,"bim":"join"|"cart","a":ROWS,"da":ROWS,"b":ROWS,"db":ROWS} (see ght.rs)
+//!   {"k":"ght_shapes"}
 //!   {"k":"types"}  -> registered names "<shape>|<code of A>|<code of B>@<rust>"
 //! Input values as in h_lattices.  Output sets of tuples (x, y) are printed as sorted arrays of
 //! the Cantor code tri(x+y)+y of each tuple (Morph.penc).  Canon machinery copied from
 //! harness/h_lattices.
 use std::collections::{BTreeMap, BTreeSet, HashMap, HashSet};
+
+mod ght;
 
 use hvcommon::{Value, guarded, json};
 use lattices::collections::{ArrayMap, ArraySet, OptionMap, OptionSet, SingletonMap, SingletonSet, VecMap};
@@ -517,6 +521,8 @@ fn run(case: &Value) -> Value {
     thread_local! { static REG: Registry = registry(); }
     REG.with(|r| match case["k"].as_str().unwrap_or("") {
         "types" => json!(r.names),
+        "ght_shapes" => ght::shapes(),
+        "ght" => guarded(|| ght::run(case)),
         "bim" => {
             let sh = case["sh"].as_str().unwrap();
             match r.run.get(sh) {
